@@ -240,8 +240,37 @@ func definitelyNonNil(v ssa.Value, depth int) bool {
 		if sv := localLoadValue(v); sv != nil {
 			return definitelyNonNil(sv, depth+1)
 		}
+		// a package-level sentinel (var errNotFound = errors.New(…)): assigned exactly once, a non-nil value
+		if g, ok := v.X.(*ssa.Global); ok && g.Pkg != nil {
+			n, nonNil := 0, true
+			for _, m := range g.Pkg.Members {
+				fn, isFn := m.(*ssa.Function)
+				if !isFn {
+					continue
+				}
+				for _, f := range append([]*ssa.Function{fn}, fn.AnonFuncs...) {
+					for _, b := range f.Blocks {
+						for _, in := range b.Instrs {
+							if st, isSt := in.(*ssa.Store); isSt && st.Addr == ssa.Value(g) {
+								n++
+								if !definitelyNonNil(st.Val, depth+1) {
+									nonNil = false
+								}
+							}
+						}
+					}
+				}
+			}
+			return n == 1 && nonNil && !g.Object().Exported()
+		}
 		return false
 	case *ssa.Call:
+		// errors.New / fmt.Errorf never return nil
+		if f := v.Common().StaticCallee(); f != nil && f.Pkg != nil {
+			if q := f.Pkg.Pkg.Path() + "." + f.Name(); q == "errors.New" || q == "fmt.Errorf" {
+				return true
+			}
+		}
 		if f := v.Common().StaticCallee(); f != nil && f.Blocks != nil && f.Signature.Results().Len() == 1 {
 			ok := true
 			for _, r := range returnsOf(f) {
